@@ -49,9 +49,14 @@ def configs(chk):
             out.append((name, "2d", {a: 2}, 0, "Iq", "C05"))
         if chk.quick:
             combos = [tuple(angles[:2])]
+            if len(angles) == 3 and name in ("parallelepiped", "triaxial_ellipsoid"):
+                combos.append(tuple(angles))      # all three jitter angles at once
         else:
             combos = [c for r in (2, 3) for c in itertools.combinations(angles, r)]
         for c in combos:
+            if len(c) == 3:
+                out.append((name, "2d", {a: 2 for a in c}, 0, "Iq", "C05", False, True))
+                continue
             out.append((name, "2d", {a: 2 for a in c}, 0, "Iq", "C05"))
         if size:
             out.append((name, "2d", {angles[0]: 2, size[0]: 2}, 0, "Iq", "C05"))
@@ -124,6 +129,65 @@ def unit_mesh(name):
     return u.r
 
 
+def unit_degenerate(name):
+    """A jitter distribution that degenerates to one point (npts=1, or zero width)
+    is the single value 0 with weight 1 -- through the REAL weights.get_weights."""
+    label = "mesh-degenerate/%s" % name
+    u = Unit(label)
+    info = core.load_model_info(name)
+    direct_model.float = npshim.ident_float
+    W.np = npshim.NpShim()
+    u.functions("sasmodels.direct_model.get_mesh", "sasmodels.weights.get_weights (real)",
+                "sasmodels.weights.Dispersion.get_weights")
+    angles = [p for p in info.parameters.call_parameters if p.type == "orientation"]
+    for npts, zero_width in ((1, False), (3, True)):
+        pars, sy = {}, {}
+        for p in angles:
+            sy[p.id] = (symx.real(p.id), symx.real(p.id + "_pd"))
+            pars[p.id] = sy[p.id][0]
+            pars[p.id + "_pd"] = sy[p.id][1]
+            pars[p.id + "_pd_n"] = npts
+        A = [(s[1].t == 0) if zero_width else (s[1].t > 0) for s in sy.values()]
+        # view angles inside the parameter limits (the centre of the jitter is 0, which they contain)
+        ex = symx.Explorer(max_paths=100)
+        paths = ex.explore(lambda: direct_model.get_mesh(info, dict(pars), dim="2d"), A)
+        u.absorb(ex, paths)
+        for p_ in paths:
+            H = p_.constraints()
+            if p_.exc is not None or p_.cut:
+                u.prove("get_mesh-raises-nothing", z3.BoolVal(False), H, _deg_cex(name, npts, zero_width))
+                continue
+            for par, (v, d, w) in zip(info.parameters.call_parameters, p_.result):
+                if par.type != "orientation":
+                    continue
+                ok = len(d) == 1 and len(w) == 1
+                phi = z3.And(term(d[0]) == 0, term(w[0]) == 1, term(v) == sy[par.id][0].t) if ok else z3.BoolVal(False)
+                u.prove("one-point-jitter-is-zero", phi, H, _deg_cex(name, npts, zero_width))
+    W.np = np
+    return u.r
+
+
+def _deg_cex(name, npts, zero_width):
+    def handler(m):
+        info = core.load_model_info(name)
+        pars = {}
+        for p in info.parameters.call_parameters:
+            if p.type == "orientation":
+                pars[p.id] = 33.0
+                pars[p.id + "_pd"] = 0.0 if zero_width else 7.0
+                pars[p.id + "_pd_n"] = npts
+        direct_model.float = float
+        W.np = np
+        mesh = direct_model.get_mesh(info, pars, dim="2d")
+        bad = any(par.type == "orientation" and (list(d) != [0.0] or list(w) != [1.0] or v != 33.0)
+                  for par, (v, d, w) in zip(info.parameters.call_parameters, mesh))
+        return {"reproduced": bool(bad), "key": "C05/mesh/degenerate-jitter",
+                "what": "%s: get_mesh(2d) with %s_pd_n=%d, width %s: the one-point jitter distribution is not ([0],[1])"
+                        % (name, "theta", npts, "0" if zero_width else "7"),
+                "inputs": {"model": name, "dim": "2d", "pars": pars}, "block": None}
+    return handler
+
+
 def _mesh_cex(name, dim, what):
     def handler(m):
         info = core.load_model_info(name)
@@ -156,7 +220,9 @@ def replay(cex):
 
 def _dispatch(item):
     kind, cfg = item
-    return c01.unit_h1(cfg) if kind == "h1" else unit_mesh(cfg)
+    if kind == "h1":
+        return c01.unit_h1(cfg)
+    return unit_mesh(cfg) if kind == "mesh" else unit_degenerate(cfg)
 
 
 def run(chk):
@@ -179,9 +245,11 @@ def run(chk):
     chk.assumptions = ["weights >= 0, cutoff >= 0", "circle axiom sin^2+cos^2=1 per angle atom; sqrt axioms",
                        "a one-point jitter distribution is [0] with weight 1 (get_mesh contract, checked by the mesh units)",
                        "Iqac/Iqabc uninterpreted (their evenness in q is not needed for any obligation)"]
-    items = [("h1", c) for c in configs(chk)] + [("mesh", n) for n in oriented_models()]
+    items = [("h1", c) for c in configs(chk)] + [("mesh", n) for n in oriented_models()] \
+        + [("deg", n) for n in oriented_models()]
     if getattr(chk, "only", None):
-        items = [it for it in items if chk.only in ("%s/%s/%s" % (it[1][0], it[1][1], it[1][2]) if it[0] == "h1" else "mesh/" + it[1])]
+        items = [it for it in items if chk.only in ("%s/%s/%s" % (it[1][0], it[1][1], it[1][2]) if it[0] == "h1"
+                                                     else {"mesh": "mesh/", "deg": "mesh-degenerate/"}[it[0]] + it[1])]
     pmap(c01._prebuild, sorted({c[0] for k, c in items if k == "h1"}))
     chk.add(pmap(_dispatch, items))
 
